@@ -44,7 +44,7 @@ def run(ck):
         gens = [dict(ns=2, cat="c20g", ops=OPS, modes=MODES, genlen=20, num=60, seed=ck.seed * 100 + 20, inflight=1)]
         cfgs = ["Engine_c20_quick.cfg", "Engine_c20_quick_strict.cfg"]
         ck.setcov("constants", "2 shards, 1 object + tombstone, Delete/Drop/GC, modes rw/ro/dro, read and write faults")
-    scripts, per, hit = eu.run_property(ck, "C20", cfgs, wit, gens, WHAT, procs=4 if not thorough else 6, par=4 if not thorough else 5)
+    scripts, per, hit = eu.run_property(ck, "C20", cfgs, wit, gens, WHAT, procs=4 if not thorough else 6, par=4 if not thorough else 3)
     if not ck.replay and not ck.violations:
         modes = {sh["mode"] for p in per for e in p for sh in e.get("obs", {}).get("sh", [])}
         if "dro" not in modes or "ro" not in modes:
